@@ -36,7 +36,7 @@ Proof.
     cbn [ts_ctx_chain ts_decl tnames tn map app ts_is_enum existsb ta_type ts_is_const_def ts_decl_parent ts_is_decl ta_ident];
     cbn;
     try rewrite E; try rewrite Hn; try reflexivity.
-  destruct k; try (cbn in Hc; discriminate); reflexivity.
+  all: destruct k; try (cbn in Hc; discriminate); reflexivity.
 Qed.
 
 Lemma ts_nonnumeric_type l : lit_is_numeric l = false -> String.eqb (ts_node_type l) ts_number_type = false.
